@@ -88,7 +88,7 @@ def expected_caps(cfg: dict[str, Any]) -> dict[str, Any]:
         exp["vgi-max-response-bytes"] = str(cfg["max_response_bytes"])
     if cfg["max_ext_bytes"] is not None:
         exp["vgi-max-externalized-response-bytes"] = str(cfg["max_ext_bytes"])
-    exp["vgi-externalization-enabled"] = "true" if cfg["storage"] == "storage" else "false"
+    exp["vgi-externalization-enabled"] = "true" if cfg["storage"].startswith("storage") else "false"
     if cfg["compression"] is None:
         codecs: list[str] = []
     else:
@@ -158,7 +158,7 @@ configs = st.fixed_dictionaries(
         "max_response_bytes": _sizes,
         "alias": st.booleans(),  # pass max_response_bytes through the deprecated max_stream_response_bytes
         "max_ext_bytes": _sizes,
-        "storage": st.sampled_from(["none", "config_only", "storage"]),
+        "storage": st.sampled_from(["none", "config_only", "storage", "storage_sized"]),
         "upload": st.booleans(),
         "max_upload_bytes": _sizes,
         "compression": st.one_of(st.none(), st.just(1), st.integers(1, 22)),
@@ -506,7 +506,7 @@ def run_case(case: dict[str, Any]) -> Outcome:
         "max_request_bytes": cfg["max_request_bytes"],
         "max_response_bytes": cfg["max_response_bytes"],
         "max_externalized_response_bytes": cfg["max_ext_bytes"],
-        "externalization_enabled": cfg["storage"] == "storage",
+        "externalization_enabled": cfg["storage"].startswith("storage"),
         "upload_url_support": bool(cfg["upload"]),
         "max_upload_bytes": cfg["max_upload_bytes"] if cfg["upload"] else None,
         "sticky_enabled": bool(cfg["sticky"]),
